@@ -58,7 +58,7 @@ func main() {
 	listOnly := flag.Bool("list", false, "list obligations only")
 	flag.Parse()
 	t0 := time.Now()
-	timeout := 20
+	timeout := 15
 	if *tier == "thorough" {
 		timeout = 60
 	}
@@ -212,14 +212,14 @@ func main() {
 				}
 			}
 		}
-		if len(retry) > 0 && len(retry) <= 16 {
+		if len(retry) > 0 && len(retry) <= 6 {
 			for i, ob := range retry {
 				one := &FnEnc{e: retryEnc[i].e, name: retryEnc[i].name, kindN: map[string]int{}}
 				one.out.WriteString(retryEnc[i].out.String())
 				one.obls = []*Obligation{ob}
 				prev := ob.Result
 				atomic.StoreInt32(&nFailed, 0)
-				solveAll(retryRun[i].prel, []*FnEnc{one}, tmp, timeout*2, 1)
+				solveAll(retryRun[i].prel, []*FnEnc{one}, tmp, timeout, 1)
 				if ob.Result != nil && ob.Result.Status != "unsat" && ob.Result.Status != "sat" {
 					ob.Result.Tried = append(prev.Tried, ob.Result.Tried...)
 				}
